@@ -279,11 +279,13 @@ class DeepSearch(dict):
             self.__report(report_key='matched_values', key=parent, value=obj)
 
     def __search_numbers(self, obj, item, parent):
+        # the item was lower-cased when the search is case insensitive: do the same to the number's text
+        obj_text = str(obj) if self.case_sensitive else str(obj).lower()
         if (
             item == obj or (
                 not self.strict_checking and (
-                    item == str(obj) or (
-                        self.use_regexp and item.search(str(obj))
+                    item == obj_text or (
+                        self.use_regexp and item.search(obj_text)
                     )
                 )
             )
